@@ -98,17 +98,22 @@ def run(res, pid=PID, scs_fn=scenarios, nontrivial_fn=nontrivial, rule=None, ext
 
     reported = set()
 
+    meta = {}
+
     def fails_pred(c):
         rr = storelib.run_impl([dict(c, id=0)]).get(0)
         if rr is None:
             return False
         return (storelib.refmap_check(c, rr["obs"]) is not None or bool(rr.get("inv"))
-                or (extra_pred is not None and extra_pred(c, rr["obs"]) is not None))
+                or (extra_pred is not None and extra_pred(dict(c, **meta), rr["obs"]) is not None))
 
     for s, bad in pred_fail[:40]:
+        # the generator's parameters of the scenario (entry size, bytes per round, ...) stay with the shrunk scenario:
+        # the extra predicate is stated in terms of them
+        meta = {k: v for k, v in s.items() if k.startswith("_")}
         small = storelib.shrink({k: v for k, v in s.items() if not k.startswith("_")}, fails_pred)
         rr = storelib.run_impl([dict(small, id=0)])[0]
-        b2 = (storelib.refmap_check(small, rr["obs"]) or (extra_pred and extra_pred(small, rr["obs"]))
+        b2 = (storelib.refmap_check(small, rr["obs"]) or (extra_pred and extra_pred(dict(small, **meta), rr["obs"]))
               or (len(rr["obs"]) - 1, "white-box invariant: " + (rr.get("inv") or ["?"])[0]))
         key = json.dumps(small["ops"])
         if key in reported:
@@ -118,7 +123,7 @@ def run(res, pid=PID, scs_fn=scenarios, nontrivial_fn=nontrivial, rule=None, ext
         if kf:
             res.known_finding(kf["description"])
             continue
-        res.violation({"kind": "impl-violates-property", "scenario": small, "impl_trace": rr["obs"],
+        res.violation({"kind": "impl-violates-property", "scenario": dict(small, **meta), "impl_trace": rr["obs"],
                        "failed_step": b2[0], "predicate": {"name": "refmap", "verdict": b2[1]},
                        "original_scenario_id": s["id"], "seed": res.seed})
         if len(res.violations) >= 8:
@@ -176,7 +181,7 @@ def run(res, pid=PID, scs_fn=scenarios, nontrivial_fn=nontrivial, rule=None, ext
         "raw puts carry well-formed encoded entries"]
 
 
-def replay(res, path):
+def replay(res, path, extra_pred=None):
     obj = json.load(open(path))
     sc = obj.get("scenario")
     if not sc:
@@ -187,6 +192,8 @@ def replay(res, path):
         raise vlib.CheckError(out)
     rr = storelib.run_impl([dict(sc, id=0)])[0]
     bad = storelib.refmap_check(sc, rr["obs"])
+    if bad is None and extra_pred:
+        bad = extra_pred(sc, rr["obs"])
     print(json.dumps({"impl_trace": rr["obs"], "predicate": bad, "inv": rr.get("inv")}, indent=1))
     if bad or rr.get("inv"):
         print("VIOLATION property=%s replay=%s" % (res.pid, path))
